@@ -47,3 +47,47 @@ func normYAML(v any) any {
 		return v
 	}
 }
+
+// ParseY reads YAML text into the ordered tree (mappings keep their key order).
+func ParseY(text string) (*Y, error) {
+	var n yaml.Node
+	if err := yaml.Unmarshal([]byte(text), &n); err != nil {
+		return nil, err
+	}
+	if len(n.Content) == 0 {
+		return nil, fmt.Errorf("empty document")
+	}
+	return nodeToY(n.Content[0]), nil
+}
+
+func nodeToY(n *yaml.Node) *Y {
+	switch n.Kind {
+	case yaml.MappingNode:
+		y := YMap()
+		for i := 0; i+1 < len(n.Content); i += 2 {
+			y.Set(n.Content[i].Value, nodeToY(n.Content[i+1]))
+		}
+		return y
+	case yaml.SequenceNode:
+		y := YSeq()
+		for _, c := range n.Content {
+			y.Items = append(y.Items, nodeToY(c))
+		}
+		return y
+	case yaml.AliasNode:
+		return nodeToY(n.Alias)
+	}
+	var v any
+	_ = n.Decode(&v)
+	switch x := v.(type) {
+	case int:
+		return YInt(int64(x))
+	case int64:
+		return YInt(x)
+	case float64:
+		return YFloat(x)
+	case bool:
+		return YBool(x)
+	}
+	return YStr(n.Value)
+}
